@@ -149,6 +149,12 @@ Section Inter.
       let slopes := zip_with cdivr (cdiffs (c ++ [(nm1 N, n0 N)])) (diffs (tl ++ [nm1 N])) in
       prepare tl [slopes; c] None.
 
+  (* __init__ converts with np.array(..., dtype=...), which always copies:
+     the arrays kept in np_arrays never share memory with the caller's
+     buffers (observed by the harness with np.shares_memory) - this is what
+     makes a list-based functional model of the object adequate *)
+  Definition init_shares_inputs : bool := false.
+
   (* restore / copy / pickle: _prepare with the stored dt *)
   Definition copy (o : inter) : inter := prepare (i_tlist o) (i_poly o) (Some (i_dt o)).
 
